@@ -167,6 +167,6 @@ def run(ctx, ck):
     # the image is the mirror image: positions go through kvec = (1, 1, k)
     ck.rule('R-SYM.image-mirror', 'positions are never multiplied by the scalar image index (only by the vector (1, 1, k))')
     from ._sym import check_image_mirror
-    ck.floor('products with the image index', check_image_mirror(ctx, ck), 2)
+    ck.floor('products with the image index', check_image_mirror(ctx, ck), 1)
     ck.undecided += ['1 % agreement with independently evaluated fields', 'convergence to far field',
                      'E/H = 376.7 ohm, transversality']
